@@ -653,10 +653,10 @@ def lambda_of(k):
         lams = astload.find_lambdas(fn)
         if k >= len(lams):
             raise astload.ExtractionError(f'lambda #{k} of {fn.get("name")} not found')
-        ops = [m for m in astload.walk(lams[k]) if m.get('kind') == 'CXXMethodDecl' and m.get('name') == 'operator()']
-        if not ops:
+        op = astload.lambda_call_operator(lams[k])
+        if op is None:
             raise astload.ExtractionError('lambda without operator()')
-        return ops[0]
+        return op
     return pick
 
 
@@ -780,13 +780,68 @@ def result_targets():
     return [Target('optimum_trial', [opt], H_R), Target('closest_trial', [clo], H_R)]
 
 
+# ------------------------------------------------------------------------------------------------ back end A: tuner
+H_T = 'specs/C13/tuner.h'
+TU_U = 'src/tuner/util.cpp'
+TYPES_T = [(r'__normal_iterator<|::(const_)?iterator$', 'int64_t'),
+           (r'^nano::igrids_t$|std::vector<nano::tensor_t<nano::tensor_vector_storage_t, long, 1', 'struct nv_igrids'),
+           (r'^nano::tuner_steps_t$|std::vector<nano::tuner_step_t', 'struct nv_steps'),
+           (r'^nano::tuner_step_t$', 'struct nv_step'),
+           (r'^nano::igrid_t$|^nano::indices_t$|tensor_t<nano::tensor_vector_storage_t, long, 1', 'struct nv_igrid'),
+           (r'^nano::param_spaces_t$|std::vector<nano::param_space_t', 'struct nv_spaces'),
+           (r'^nano::tuner_callback_t$|^std::function<', 'struct nv_callback'), (r'^nano::logger_t$', 'struct nv_logger'),
+           (r'^\(lambda at', 'struct nv_lambda'), (r'__normal_iterator<|::(const_)?iterator$', 'int64_t'),
+           (r'^nano::tensor2d_t$|tensor_vector_storage_t, double, 2', 'struct nv_params'),
+           (r'^nano::tensor1d_t$|tensor_cmap_t<double, 1|tensor_carray_storage_t, double, 1', 'struct nv_prow'),
+           (r'tensor_vector_storage_t, double, 1', 'struct nv_values')]
+CALLS_T_A = [(r'^remove_if\|', 'nv_remove_if_igrids(&igrids, steps)'), (r'^find_if\|', 'nv_find_if_steps(steps, igrid)'),
+             (r'^map_to_grid\|', 'nv_map_to_grid({&0}, {&1})'),
+             (r'^operator\(\)\|.*\|.*(tuner_callback_t|std::function)', 'nv_callback({&1})'),
+             (r'^operator\(\)\|.*\|.*tensor_vector_storage_t, double, 1', 'nv_values_at({&0}, {1})'),
+             (r'^operator\[\]\|.*std::vector<nano::tensor_t', '(*nv_igrids_at({&0}, {1}))'),
+             (r'^isfinite\|', 'nv_isfinite({0})'), (r'^sort\|', 'nv_steps_sort(steps, {0}, {1})'),
+             (r'^operator!=\|.*__normal_iterator', '({0} != {1})'), (r'^operator==\|.*__normal_iterator', '({0} == {1})'),
+             (r'^operator==\|.*tensor_vector_storage_t, long, 1', 'nv_igrid_eq({&0}, {&1})'),
+             (r'^ctor\|nano::(tensor1d_t|tensor_t<nano::tensor_vector_storage_t, double, 1>)\|void \(const tensor_t<nano::tensor_carray_storage_t', '{0}')]
+MEMBERS_T_A = [(r'^begin\|.*std::vector', '((int64_t)0)'), (r'^end\|.*std::vector', '({self}->n)'),
+               (r'^empty\|.*std::vector', '({self}->n == 0)'), (r'^size\|.*std::vector', '((uint64_t)({self}->n))'),
+               (r'^size\|.*tensor', '({self}->n)'), (r'^erase\|.*std::vector', 'nv_igrids_erase({self}, {0}, {1})'),
+               (r'^emplace_back\|.*tuner_step_t', 'nv_steps_push({self}, {0})'),
+               (r'^tensor\|.*(tensor2d_t|double, 2)', 'nv_params_row({self}, {0})')]
+
+
+def lambda_hook(P, n):
+    """a closure object is an empty struct in C: its captures reach the stubs by name (see the call mappings)"""
+    if n.get('kind') == 'LambdaExpr':
+        P.note('closure object -> (struct nv_lambda){0}')
+        return '(struct nv_lambda){0}'
+    return None
+
+
+TUNER_A = dict(types=TYPES_T, calls=CALLS_T_A, members=MEMBERS_T_A, hooks=[lambda_hook])
+
+
+def tuner_targets():
+    ev = lambda: Fn('tuner_evaluate', TU_U, 'evaluate', flt='nano::evaluate', **TUNER_A)
+    op = lambda: Fn('tuner_evaluate_op', TU_U, 'evaluate', flt='nano::evaluate', lambda_index=0,
+                    extra_params=['struct nv_steps* steps'], **TUNER_A)
+    pred = lambda: Fn('tuner_evaluate_pred', TU_U, 'evaluate', flt='nano::evaluate', lambda_index=1,
+                      extra_params=['struct nv_igrid* igrid'], **TUNER_A)
+    less = Fn('tuner_step_less', TU_U, 'operator<', flt='nano::operator<',
+              select=lambda d: all('tuner_step_t' in t for t in astload.param_types(d)), **TUNER_A)
+    return [Target('evaluate', [ev(), op(), pred()], H_T),
+            Target('evaluate_op', [op(), pred()], H_T),
+            Target('evaluate_pred', [pred()], H_T),
+            Target('step_less', [less], H_T)]
+
+
 def build(tier):
     vcs, fns = result_vcs()
     v2, f2 = tune_vcs()
     vcs += v2 + lemmas()
     fns += f2
     return {
-        'targets': result_targets(), 'vcs': vcs, 'functions': fns,
+        'targets': result_targets() + tuner_targets(), 'vcs': vcs, 'functions': fns,
         'decided': [],
         'not_decided': [],
         'assumptions': [],
